@@ -10,7 +10,7 @@ ENTRY_SUFFIX = (
 )
 # sites that are safe by a data-structure invariant the checker cannot see: one entry per site, with the reason
 REVIEWED = {
-    'R-UNTRUSTED|bitar::archive_reader::http_reader::{impl#1}::adjacent_reads::{closure#0}|Overflow(Add)|p.offset,p.size,->tmp':
+    'R-UNTRUSTED|bitar::archive_reader::http_reader::ChunkReader::adjacent_reads::{closure}|Overflow(Add)|p.offset,p.size,->tmp':
         'offset + size of every descriptor is validated not to overflow when the archive is opened (try_init)',
     'R-UNTRUSTED|bitar::chunk_offset::ChunkOffset::end|Overflow(Add)|self.offset,self.size,->tmp':
         'offset + size of every descriptor is validated not to overflow when the archive is opened (try_init)',
@@ -24,9 +24,9 @@ REVIEWED = {
         'chunk_index only grows by one per delivered chunk while chunk_index < chunks.len()',
     'R-UNTRUSTED|<bitar::archive_reader::io_reader::IoChunkReader as futures_core::stream::Stream>::size_hint|Overflow(Sub)|len(self.chunks),self.chunk_index,->chunks_left':
         'chunk_index only grows by one per delivered chunk while chunk_index < chunks.len()',
-    'R-UNTRUSTED|bitar::archive::{impl#5}::chunk_stream::{closure#3}|index|index':
+    'R-UNTRUSTED|bitar::archive::Archive::chunk_stream::{closure}|index|index':
         'enumerate() index of the reader stream, which yields at most one item per requested descriptor',
-    'R-UNTRUSTED|bitar::chunk_index::{impl#9}::strip_chunks_already_in_place::{closure#0}|Overflow(Sub)|len(_2.1),len(cd.offsets),->offsets_in_place':
+    'R-UNTRUSTED|bitar::chunk_index::ChunkIndex::strip_chunks_already_in_place::{closure}|Overflow(Sub)|len(_2.1),len(cd.offsets),->offsets_in_place':
         'cd is a clone of the same location (closure parameter .1) from which offsets were only removed',
 }
 
@@ -43,6 +43,7 @@ def run(facts, cg, reviewed=None):
     used = set()
     seen_keys = set()
     for s in sites:
+        s['key'] = facts.stabilise(s['key'])
         verdict = s['verdict']
         if verdict == 'UNGUARDED' and s['key'] in reviewed:
             verdict = 'reviewed'
@@ -54,12 +55,12 @@ def run(facts, cg, reviewed=None):
             seen_keys.add(s['key'])
             findings.append({'rule': 'R-UNTRUSTED', 'key': s['key'], 'function': s['function'],
                              'what': 'untrusted value reaches %s (%s) at %s without a dominating range check' % (s['kind'], ', '.join(s['operands']), s['at'])})
-    for k in reviewed:
-        if k not in used:
-            findings.append({'rule': 'R-UNTRUSTED', 'key': 'R-UNTRUSTED|stale-review|' + k, 'function': '-', 'what': 'reviewed-table entry matches no site any more: ' + k})
+    # a reviewed entry that matches no site any more suppresses nothing; it is reported in the evidence, not as a violation
+    # (the site may have been rewritten in a form the checker discharges by itself)
+    stale = [k for k in reviewed if k not in used]
     meta = {'rule': 'R-UNTRUSTED(meta)', 'fixpoint_rounds': rounds, 'region_functions': len(region), 'entry_points': len(roots),
             'tainted_fields': sorted('%s%s.%s' % (k[0].split('::')[-1], '::' + k[1] if k[1] else '', k[2]) for k in t.TF),
-            'sinks': len(sites)}
+            'sinks': len(sites), 'stale_review_entries': stale}
     instances.append(meta)
     if len(roots) < 8 or len(region) < 100:
         findings.append({'rule': 'R-UNTRUSTED', 'key': 'R-UNTRUSTED|floor', 'function': '-', 'what': 'entry points / region too small (cannot decide)'})
